@@ -1,6 +1,7 @@
 // UNIT flusher — where a blob part is written and which addresses go into the disk index (C07, write order of C04)
 #![allow(unused_imports, unused_variables, dead_code, unused_mut)]
 use vstd::prelude::*;
+use vstd::std_specs::iter::IteratorSpec;
 verus! {
 
 global size_of usize == 8;
@@ -88,7 +89,8 @@ fn append_addresses(block: BlockId, blob_offset: usize, indices: Vec<BlobEntryIn
 // was updated; the index placeholders of the batch's flushed tombstones are removed here, under their own sequence,
 // i.e. not while writes of the same batch may still be inserted into the index; then the waiters are answered)
 pub struct TombT { pub hash: u64, pub sequence: Sequence }
-pub struct TombstoneInfo { pub tombstone: TombT }
+#[derive(Clone, Copy)] pub struct InvalidStats { pub block: BlockId, pub size: usize }
+pub struct TombstoneInfo { pub tombstone: TombT, pub stats: Option<InvalidStats> }
 pub enum Done { ReleasedWriteQueueRefs(nat), RemovedTombstones(Seq<(u64, Sequence)>) }
 pub struct IndexerT { pub log: Ghost<Seq<Done>> }
 pub open spec fn keys_of(t: Seq<TombstoneInfo>) -> Seq<(u64, Sequence)> { t.map_values(|i: TombstoneInfo| (i.tombstone.hash, i.tombstone.sequence)) }
@@ -120,5 +122,39 @@ impl RunnerT {
             invariant self.indexer.log@ == old(self).indexer.log@.push(Done::ReleasedWriteQueueRefs(piece_refs@.len())).push(Done::RemovedTombstones(keys_of(tombstone_infos@))), // @label refs_released_and_tombstone_placeholders_removed_before_the_waiters_are_answered
 //@end
 }
+
+
+// ---- the tombstone future of Runner::submit_io_task (C10): EVERY tombstone of the batch is handed to the tombstone log
+// (a delete whose key had no indexed address yet -- its write is still queued -- included), in batch order, before the
+// invalid-bytes statistics are updated; an append error ends the future with that error
+pub open spec fn toms_of(t: Seq<TombstoneInfo>) -> Seq<TombT> { t.map_values(|i: TombstoneInfo| i.tombstone) }
+pub struct LogT { pub must: Ghost<Seq<TombT>> }
+impl LogT {
+    #[verifier::external_body]
+    pub fn append(&self, v: Vec<&TombT>) -> (r: core::result::Result<(), Error>)
+        requires v@.len() == self.must@.len(), forall|i: int| 0 <= i < v@.len() ==> *(#[trigger] v@[i]) == self.must@[i], // @label every_tombstone_of_the_batch_is_handed_to_the_log_in_order
+    { unimplemented!() }
+}
+/// empty Vec of the element type the rewritten iterator chain produces (rule iter-arg)
+pub fn verif_new_vec<'a>() -> (r: Vec<&'a TombT>) ensures r@.len() == 0 { Vec::new() }
+pub struct AtomicT { }
+impl AtomicT { #[verifier::external_body] pub fn fetch_add(&self, v: usize, o: Ordering) -> usize { unimplemented!() } }
+#[derive(Clone, Copy)] pub enum Ordering { Relaxed, Acquire, Release, SeqCst }
+pub struct StatsT { pub invalid: AtomicT }
+pub struct BlockHandleT { pub st: StatsT }
+impl BlockHandleT { pub fn statistics(&self) -> &StatsT { &self.st } }
+pub struct BlockManagerT { }
+impl BlockManagerT { #[verifier::external_body] pub fn block(&self, id: BlockId) -> BlockHandleT { unimplemented!() } }
+//@region foyer-storage/src/engine/block/flusher.rs :: impl~^impl<K, V, P> Runner<K, V, P>/fn submit_io_task name=tombstone_future start=/let tombstone_log = self\.tombstone_log\.clone\(\);/ body=1 rules=drop-tracing,de-async,iter-arg sub=@for TombstoneInfo \{ tombstone: _, stats \} in tombstone_infos \{@for verif_ti in tombstone_infos { let stats = verif_ti.stats;@
+//@head
+fn tombstone_future(tombstone_log: Option<LogT>, tombstone_infos: Vec<TombstoneInfo>, block_manager: &BlockManagerT) -> (r: core::result::Result<(), Error>)
+    requires tombstone_log matches Some(l) ==> l.must@ == toms_of(tombstone_infos@),
+//@loop 1 iter=it
+            invariant
+                it.snapshot@.remaining().len() == tombstone_infos@.len(),
+                forall|i: int| 0 <= i < tombstone_infos@.len() ==> *(#[trigger] it.snapshot@.remaining()[i]) == tombstone_infos@[i],
+                verif_v@.len() == it.index@, // @label no_tombstone_of_the_batch_is_left_out
+                forall|i: int| 0 <= i < it.index@ ==> *(#[trigger] verif_v@[i]) == tombstone_infos@[i].tombstone,
+//@end
 
 } // verus!
